@@ -269,5 +269,78 @@ theorem quat_rotationTo_generic (a b : P3) (ha : a.Dot a = 1) (hb : b.Dot b = 1)
     linear_combination bz * hinv + L⁻¹ * L⁻¹ * ((-(az + bz) * (bx*bx + b_y*b_y + bz*bz) + 2 * (1 + (ax * bx + ay * b_y + az * bz)) * bz) * ha + (-(az + bz)) * hb)
 
 
+/-! ### RotationTo, opposite directions -/
+
+/-- rotating by the half-turn about a unit axis `n` orthogonal to `f` maps `f` to `-f` -/
+theorem halfturn_flips (c f : P3) (hc : c.Dot c ≠ 0) (horth : c.Dot f = 0) :
+    (FromTheta Real.pi (c.Normalized)).Rotate f = f.Scale (-1) := by
+  have hpos : 0 < c.Dot c := by
+    have : 0 ≤ c.Dot c := by simp [V3.Dot]; nlinarith [sq_nonneg c.x, sq_nonneg c.y, sq_nonneg c.z]
+    exact lt_of_le_of_ne this (Ne.symm hc)
+  simp only [V3.Dot] at hpos hc horth
+  have hs := Real.mul_self_sqrt hpos.le
+  -- the doubly normalised axis
+  simp only [FromTheta, V3.Normalized, V3.DivByConstant, V3.Length, V3.LengthSquared, RS.sqrt_eq, RS.sin_eq, RS.cos_eq,
+    Quaternion.Rotate, V3.Scale, V3.Dot, V3.Add, V3.Cross, RS.sq_eq]
+  generalize Real.sqrt (c.x * c.x + c.y * c.y + c.z * c.z) = r at hs ⊢
+  have hr : r ≠ 0 := by intro h; rw [h] at hs; linarith
+  have hinv : (c.x * c.x + c.y * c.y + c.z * c.z) * r⁻¹ * r⁻¹ = 1 := by rw [← hs]; field_simp
+  have h2 : Real.sqrt (c.x / r * (c.x / r) + c.y / r * (c.y / r) + c.z / r * (c.z / r)) = 1 := by
+    have : c.x / r * (c.x / r) + c.y / r * (c.y / r) + c.z / r * (c.z / r) = 1 := by
+      field_simp; nlinarith [hs]
+    rw [this]; simp
+  rw [h2]
+  have hc2 : Real.cos (Real.pi / ((2 : ℕ) : ℝ)) = 0 := by push_cast; exact Real.cos_pi_div_two
+  have hs2 : Real.sin (Real.pi / ((2 : ℕ) : ℝ)) = 1 := by push_cast; exact Real.sin_pi_div_two
+  rw [hc2, hs2]
+  ext
+  · simp; field_simp; linear_combination (2 * c.x) * horth + f.x * hs
+  · simp; field_simp; linear_combination (2 * c.y) * horth + f.y * hs
+  · simp; field_simp; linear_combination (2 * c.z) * horth + f.z * hs
+
+
+/-- opposite directions (dot below the source's threshold): the result is a half-turn about an axis orthogonal to
+    `a`, so `a` is mapped onto `-a`; in particular `RotationTo a (-a)` maps `a` onto `-a` -/
+theorem quat_rotationTo_antiparallel (a b : P3) (ha : a.Dot a = 1) (hd : a.Dot b < -rotThreshold) :
+    (RotationTo a b).Rotate a = a.Scale (-1) := by
+  have e1 : a.Dot b < -((9007190247541737 : ℕ) : ℝ) / ((9007199254740992 : ℕ) : ℝ) := by
+    simpa [rotThreshold, neg_div] using hd
+  by_cases hlen : (V3.Cross (V3.Right : P3) a).Length < ((4722366482869645 : ℕ) : ℝ) / ((4722366482869645213696 : ℕ) : ℝ)
+  · -- fallback axis Up × a
+    have : RotationTo a b = FromTheta Real.pi (V3.Normalized (V3.Cross (V3.Up : P3) a)) := by
+      unfold RotationTo
+      simp only [RS.lit_eq, decide_eq_true_eq, neg_div', e1, if_true, RS.pi_eq, hlen]
+    rw [this]
+    apply halfturn_flips
+    · simp only [V3.Length, V3.LengthSquared, RS.sqrt_eq, V3.Cross, V3.Right, V3.Up, V3.Dot] at *
+      push_cast at *
+      have hlt : Real.sqrt ((0 * a.z - 0 * a.y) * (0 * a.z - 0 * a.y) + (0 * a.x - 1 * a.z) * (0 * a.x - 1 * a.z) +
+          (1 * a.y - 0 * a.x) * (1 * a.y - 0 * a.x)) < 1 := lt_of_lt_of_le hlen (by norm_num)
+      have hsq : (0 * a.z - 0 * a.y) * (0 * a.z - 0 * a.y) + (0 * a.x - 1 * a.z) * (0 * a.x - 1 * a.z) +
+          (1 * a.y - 0 * a.x) * (1 * a.y - 0 * a.x) < 1 := by
+        by_contra hge
+        push Not at hge
+        have := Real.one_le_sqrt.mpr hge
+        linarith
+      nlinarith [sq_nonneg a.z, sq_nonneg a.x]
+    · simp only [V3.Cross, V3.Up, V3.Dot]; push_cast; ring
+  · have : RotationTo a b = FromTheta Real.pi (V3.Normalized (V3.Cross (V3.Right : P3) a)) := by
+      unfold RotationTo
+      simp only [RS.lit_eq, decide_eq_true_eq, neg_div', e1, if_true, RS.pi_eq, hlen, if_false]
+    rw [this]
+    apply halfturn_flips
+    · intro h0
+      apply hlen
+      simp only [V3.Length, V3.LengthSquared, RS.sqrt_eq]
+      simp only [V3.Dot] at h0
+      rw [h0]; simp
+    · simp only [V3.Cross, V3.Right, V3.Dot]; push_cast; ring
+
+example : (RotationTo (⟨1, 0, 0⟩ : P3) ⟨-1, 0, 0⟩).Rotate ⟨1, 0, 0⟩ = (⟨1, 0, 0⟩ : P3).Scale (-1) := by
+  apply quat_rotationTo_antiparallel
+  · simp [V3.Dot]
+  · simp [V3.Dot, rotThreshold]; norm_num
+
+
 end C17
 end PolyVerif
